@@ -415,8 +415,12 @@ func corruptions(p *Program) []corruption {
 			for sj := range p.Steps {
 				if si != sj && !dependsOn(p, p.Steps[sj].ID, p.Steps[si].ID) {
 					q := cloneProg(p)
-					q.Steps[si].WaitFor = E("$.steps." + p.Steps[sj].ID + ".starting.started")
-					out = append(out, corruption{fmt.Sprintf("step %s additionally waits for %s.starting.started", p.Steps[si].ID, p.Steps[sj].ID), q, false})
+					what := "starting.started"
+					if p.Steps[sj].Kind == "foreach" {
+						what = "outputs" // loop steps have no starting stage
+					}
+					q.Steps[si].WaitFor = E("$.steps." + p.Steps[sj].ID + "." + what)
+					out = append(out, corruption{fmt.Sprintf("step %s additionally waits for %s.%s", p.Steps[si].ID, p.Steps[sj].ID, what), q, false})
 				}
 			}
 		}
